@@ -71,6 +71,17 @@ CLAIMED['C10'] = dict(
     note=TRUSTED + 'LenSeq stand-ins; A < 7 and P in 1..6 are outside the documented domain; K = 3 / 6 fragments.',
     design='5/C10')
 
+CLAIMED['C09'] = dict(
+    text='The real AssociationAcceptor.accept and one iteration of _loop run symbolically on a real AE configuration object: '
+         'per instance the abstract syntax and served set are fixed, and the ordered list of 1..3 proposed transfer syntaxes, '
+         'every subset of supported transfer syntaxes, 0..3 contexts with symbolic abstract-syntax choices, AE titles and '
+         'maximum length are symbolic; reply, accepted_contexts, sop_classes_as_scp and message dispatch are compared with '
+         'an independent reference negotiation (one answer per context, same ids and order, accepted iff served and '
+         'proposed ∩ supported non-empty, returned syntax in that intersection, routing = what was reported).',
+    note=TRUSTED + 'Universe: 3 abstract syntaxes, 3 (quick) / 4 (thorough) transfer syntaxes; context ids drawn from a fixed '
+         'set varying with the path (a symbolic dict key would only be enumerated); services are recording callables.',
+    design='5/C09')
+
 NOT_YET = 'check not built yet in this revision (see DESIGN.md section 5 for the plan)'
 
 NOT_APPLICABLE = {}
